@@ -6,7 +6,8 @@ cd "$(dirname "$0")/.."
 pat="${*:-C}"
 one() {
   d=$1; n=$(basename $d)
-  ids=$(/venv/bin/python -c "import json; print(' '.join(json.load(open('$d/meta.json'))['caught_by']))")
+  ids=$(/venv/bin/python -c "import json; m=json.load(open('$d/meta.json')); print('' if m.get('neutralised') else ' '.join(m['caught_by']))")
+  [ -z "$ids" ] && { echo "$n NEUTRALISED (see meta.json)"; return; }
   out=$(MUT_WT=1 tools/mutcheck.sh $PWD/$d/patch.diff $ids 2>&1)
   case "$out" in *"does not apply"*) echo "$n NOAPPLY";; *"rc=1"*) echo "$n CAUGHT $(echo "$out" | grep -o '== C[0-9]* rc=[0-9]*' | tr '\n' ' ')";; *) echo "$n MISSED $(echo "$out" | grep -o '== C[0-9]* rc=[0-9]*' | tr '\n' ' ')";; esac
 }
